@@ -225,6 +225,21 @@ class Ref:
                     self._detach_for(o, hd["path"], op, args, node)
             self.revalidate()
             return exp, info
+        if t == "opx":
+            # a multi-element mutator whose argument is valid up to a point and then forbidden: it must raise a
+            # TypeError/ValueError; how much of the valid part was applied before is unspecified by any property,
+            # so the reference FOLLOWS the resource (execute() copies what the backend holds afterwards) - what
+            # is specified is that every later read shows exactly that (unbuffered objects only)
+            _, h, op, args = ev
+            hd = self.handles[h]
+            r = self.obj_res[hd["obj"]]
+            assert not self.obj_buffered(hd["obj"]), "opx is defined for unbuffered objects"
+            self.touched[r] = True
+            info["follow_disk"] = r
+            # positions below the handle may have been reassigned through this very object before the rejection:
+            # children retained from it are beyond their stated guarantee from here on
+            self.detach_under(hd["obj"], hd["path"])
+            return Expect("reject"), info
         if t == "nav":
             _, h, key = ev
             hd = self.handles[h]
@@ -424,7 +439,7 @@ class World:
     def apply(self, ev):
         """-> outcome ('ok', value) | ('exc', e) | None"""
         t = ev[0]
-        if t == "op":
+        if t in ("op", "opx"):
             _, h, op, args = ev
             return model.impl_apply(self.handle_objs[h], op, args, self.mk_synced)
         if t == "nav":
@@ -554,6 +569,13 @@ def execute(cfg, history, oracles, hooks=None, keep_world=False, alphabet=None):
                 hooks.before_event(run, ev, last)
             outcome = world.apply(ev)
             exp, info = ref.apply(ev)
+            if info.get("follow_disk") is not None:
+                r_ = info["follow_disk"]
+                actual = world.resources[r_].read()
+                if model.is_plain(actual):
+                    if actual is ABSENT or kind(actual) == ref.rootkind:
+                        ref.disk[r_] = actual
+                ref.revalidate()
             if exp is not None and exp.mode == "popitem" and outcome and outcome[0] == "ok":
                 # follow the implementation's choice
                 item = outcome[1]
@@ -565,7 +587,7 @@ def execute(cfg, history, oracles, hooks=None, keep_world=False, alphabet=None):
             if last:
                 res.outcome = outcome
                 v = res.violations
-                if ev[0] == "op" and "result" in oracles:
+                if ev[0] in ("op", "opx") and "result" in oracles:
                     why = check_result(exp, outcome, info.get("node_before"))
                     if why:
                         v.append(("result", "%r: %s" % (ev, why)))
